@@ -299,6 +299,9 @@ def check(run):
             run.check(bool(cs) and q.on_all_paths(f, cs), 'R6-ABORT', 'timer-rearm-cancels', TIMER + '::' + name, f.loc(),
                       '%s has a path that does not go through cancel(): the outstanding wait is neither completed nor aborted, and the next async_wait() silently overwrites its handler' % name,
                       'cancel() on every path')
+    run.clause('cancelling or re-arming one timer never takes ANOTHER timer\'s wait off the queue: remove_timer erases exactly the timer asked for among equal expiries (shared with C03/C12)')
+    import p12 as _p12
+    _p12.remove_timer_rule(run)
     cn = fx.fn1(TIMER + '::cancel')
     fires = [c for c in cn.calls() if (q.callee_name(c) or '').endswith('high_resolution_timer::fire')]
     run.check(bool(fires) and all('operation_aborted' in q.render(cn, c) for c in fires), 'R6-ABORT', 'timer-cancel-aborts', TIMER + '::cancel', cn.loc(), 'cancel() does not fire the pending handler with operation_aborted', 'fires operation_aborted')
